@@ -48,6 +48,10 @@ fn readable(block: &Block, span: usize) -> Option<String> {
 struct StripParentheses;
 
 impl darklua_core::process::NodeProcessor for StripParentheses {
+    fn process_type(&mut self, r#type: &mut Type) {
+        Self::strip_type(r#type);
+    }
+
     fn process_expression(&mut self, expression: &mut Expression) {
         loop {
             let inner = match expression {
@@ -59,6 +63,21 @@ impl darklua_core::process::NodeProcessor for StripParentheses {
             };
             match inner {
                 Some(inner) => *expression = inner,
+                None => break,
+            }
+        }
+    }
+}
+
+impl StripParentheses {
+    fn strip_type(r#type: &mut Type) {
+        loop {
+            let inner = match r#type {
+                Type::Parenthese(parenthese) => Some(parenthese.get_inner_type().clone()),
+                _ => None,
+            };
+            match inner {
+                Some(inner) => *r#type = inner,
                 None => break,
             }
         }
@@ -915,6 +934,10 @@ fn stmts() {
     endings.push(("ifexp_name".into(), IfExpression::new(id("c"), gen::number("1"), id("a")).into()));
     endings.push(("ifexp_number".into(), IfExpression::new(id("c"), id("a"), gen::number("1")).into()));
     endings.push(("false".into(), Expression::from(false)));
+    // number nodes that are written with parentheses: (0/0), (1/0), (-1/0)
+    endings.push(("nan".into(), DecimalNumber::new(f64::NAN).into()));
+    endings.push(("inf".into(), DecimalNumber::new(f64::INFINITY).into()));
+    endings.push(("neg_inf".into(), DecimalNumber::new(f64::NEG_INFINITY).into()));
     let paren = |n: &str| Prefix::Parenthese(Box::new(ParentheseExpression::new(Expression::identifier(n))));
     let seconds: Vec<(&str, Statement)> = vec![
         ("paren_call", Statement::Call(FunctionCall::from_prefix(paren("g")))),
@@ -1206,6 +1229,499 @@ fn sources() {
     }
 }
 
+// ---- every generator entry point at node level ---------------------------------------------------
+
+/// literals of an expression in the order they are written: ('s', value) for a string, ('i', text) for each
+/// text part of an interpolated string (adjacent text segments are ONE part; holes separate parts)
+fn collect_literals(expression: &Expression, out: &mut Vec<(char, Vec<u8>)>) {
+    match expression {
+        Expression::String(string) => out.push(('s', string.get_value().to_vec())),
+        Expression::InterpolatedString(interpolated) => {
+            let mut current: Vec<u8> = Vec::new();
+            for segment in interpolated.iter_segments() {
+                match segment {
+                    InterpolationSegment::String(text) => current.extend_from_slice(text.get_value()),
+                    InterpolationSegment::Value(value) => {
+                        out.push(('i', std::mem::take(&mut current)));
+                        collect_literals(value.get_expression(), out);
+                    }
+                }
+            }
+            out.push(('i', current));
+        }
+        Expression::Binary(binary) => {
+            collect_literals(binary.left(), out);
+            collect_literals(binary.right(), out);
+        }
+        Expression::Unary(unary) => collect_literals(unary.get_expression(), out),
+        Expression::Parenthese(parenthese) => collect_literals(parenthese.inner_expression(), out),
+        Expression::Call(call) => match call.get_arguments() {
+            Arguments::Tuple(tuple) => tuple.iter_values().for_each(|e| collect_literals(e, out)),
+            Arguments::String(string) => out.push(('s', string.get_value().to_vec())),
+            Arguments::Table(table) => collect_literals(&Expression::from(table.clone()), out),
+        },
+        Expression::Table(table) => {
+            for entry in table.get_entries() {
+                match entry {
+                    TableEntry::Field(entry) => collect_literals(entry.get_value(), out),
+                    TableEntry::Index(entry) => {
+                        collect_literals(entry.get_key(), out);
+                        collect_literals(entry.get_value(), out);
+                    }
+                    TableEntry::Value(value) => collect_literals(value, out),
+                }
+            }
+        }
+        Expression::Index(index) => collect_literals(index.get_index(), out),
+        _ => {}
+    }
+}
+
+fn encode_literals(literals: &[(char, Vec<u8>)]) -> String {
+    if literals.is_empty() {
+        return "-".to_owned();
+    }
+    literals.iter().map(|(k, v)| format!("{}{}", k, hex(v))).collect::<Vec<_>>().join(",")
+}
+
+#[derive(Clone, Copy, PartialEq)]
+enum Entry {
+    Expression,
+    Statement,
+    LastStatement,
+    Block,
+}
+
+fn write_with<G: LuaGenerator>(mut generator: G, entry: Entry, expression: &Expression, form: usize) -> Option<(String, String)> {
+    // returns (text, prefix needed to make the text a chunk for darklua's parser)
+    let e = expression.clone();
+    let statement: Statement = match form {
+        0 => VariableAssignment::new(vec!["s".into()], vec![e.clone()]).into(),
+        1 => AssignStatement::from_variable(Variable::new("x"), e.clone()).into(),
+        2 => Statement::Call(FunctionCall::from_name("f").with_argument(e.clone())),
+        _ => WhileStatement::new(Block::default(), BinaryExpression::new(BinaryOperator::Equal, e.clone(), Expression::identifier("x"))).into(),
+    };
+    catch_unwind(AssertUnwindSafe(move || match entry {
+        Entry::Expression => {
+            generator.write_expression(&e);
+            (generator.into_string(), "return ".to_owned())
+        }
+        Entry::Statement => {
+            generator.write_statement(&statement);
+            (generator.into_string(), String::new())
+        }
+        Entry::LastStatement => {
+            generator.write_last_statement(&LastStatement::Return(ReturnStatement::one(e)));
+            (generator.into_string(), String::new())
+        }
+        Entry::Block => {
+            generator.write_block(&Block::new(vec![statement], Some(LastStatement::Return(ReturnStatement::one(e)))));
+            (generator.into_string(), String::new())
+        }
+    }))
+    .ok()
+}
+
+/// Trees with long multi-part tokens through EVERY entry point of both generators (write_expression,
+/// write_statement, write_last_statement, write_block) at column spans 0..=40, 80, 120. Line:
+/// `node <id> <dense|readable> <entry><form> <span> <literals> <text hex> <reference hex> <reparse> nl=<n>`
+fn nodes() {
+    let text = |t: &str| StringSegment::from_value(t.as_bytes().to_vec());
+    let hole = |e: Expression| ValueSegment::new(e);
+    let id = |n: &str| Expression::identifier(n);
+    // `new` keeps adjacent text segments as separate segments (`with_segment` would merge them)
+    let interp = |segments: Vec<InterpolationSegment>| -> Expression { InterpolatedStringExpression::new(segments).into() };
+    let long_text = "hello wonderful world of interpolated text ";
+    let expressions: Vec<(&str, Expression)> = vec![
+        ("interp_long_text", interp(vec![text(long_text).into(), hole(id("name")).into(), text(" and more text after the hole").into()])),
+        ("interp_adjacent_text", interp(vec![text("item").into(), text("42").into()])),
+        ("interp_adjacent_mixed", interp(vec![text("a b").into(), text("c d").into(), hole(id("x")).into(), text("e").into(), text("f g h").into()])),
+        ("interp_adjacent_digits", interp(vec![text("n").into(), text("1").into(), text("e5").into(), hole(id("x")).into(), text("0").into(), text("x1").into()])),
+        ("interp_empty_segment", interp(vec![text("a").into(), text("").into(), hole(id("x")).into(), text("").into(), hole(id("y")).into(), text("").into()])),
+        ("interp_holes_only", interp(vec![hole(id("a")).into(), hole(id("b")).into()])),
+        ("interp_hole_with_string", interp(vec![text("n: ").into(), hole(FunctionCall::from_name("f").with_argument(StringExpression::from_value("inner string value")).into()).into(), text(" end of it").into()])),
+        ("interp_special_bytes", interp(vec![text("tab\there `tick` {brace} \\ back \n line 1 2 3").into(), hole(id("x")).into(), text("\x01\x02 9").into()])),
+        ("interp_table_hole", interp(vec![text("t = ").into(), hole(TableExpression::default().into()).into()])),
+        ("long_quoted", StringExpression::from_value("a fairly long quoted string with spaces in it").into()),
+        ("long_bracket", StringExpression::from_value("a long bracket candidate with many words so that it exceeds sixty bytes for sure").into()),
+        ("long_bracket_lines", StringExpression::from_value("l1 a\nl2 b\nl3 c\nl4 d\nl5 e\nl6 f\nl7 g").into()),
+        ("long_number", gen::number("123456789012345680000")),
+        ("concat_literals", BinaryExpression::new(BinaryOperator::Concat, StringExpression::from_value("left part of the text "), interp(vec![text("right {").into(), hole(id("y")).into(), text("} part").into()])).into()),
+        ("call_arguments", FunctionCall::from_name("format").with_argument(interp(vec![text("%d items in ").into(), hole(id("n")).into()])).with_argument(StringExpression::from_value("second argument text")).into()),
+        ("table_values", TableExpression::new(vec![
+            TableEntry::Field(Box::new(TableFieldEntry::new("k", interp(vec![text("value of k is ").into(), hole(id("k")).into()])))),
+            TableEntry::Index(Box::new(TableIndexEntry::new(StringExpression::from_value("a key with spaces"), gen::number("1")))),
+            TableEntry::Value(Box::new(StringExpression::from_value("plain value").into())),
+        ]).into()),
+        ("string_call", FunctionCall::from_name("print").with_arguments(StringExpression::from_value("the only argument of a string call")).into()),
+        ("index_key", IndexExpression::new(Prefix::from_name("t"), interp(vec![text("key ").into(), hole(id("i")).into()])).into()),
+    ];
+    let mut spans: Vec<usize> = (0..=40).collect();
+    spans.push(80);
+    spans.push(120);
+    let mut idn = 0usize;
+    for (name, expression) in &expressions {
+        let mut literals = Vec::new();
+        collect_literals(expression, &mut literals);
+        let entries: Vec<(Entry, usize, &str)> = vec![
+            (Entry::Expression, 0, "expression"),
+            (Entry::LastStatement, 0, "last"),
+            (Entry::Statement, 0, "statement_local"),
+            (Entry::Statement, 1, "statement_assign"),
+            (Entry::Statement, 2, "statement_call"),
+            (Entry::Statement, 3, "statement_while"),
+            (Entry::Block, 1, "block"),
+        ];
+        for (entry, form, entry_name) in &entries {
+            let mut expected = literals.clone();
+            if *entry == Entry::Block {
+                expected.extend(literals.clone()); // the block holds the expression twice
+            }
+            let reference = match write_with(DenseLuaGenerator::new(1_000_000_000), *entry, expression, *form) {
+                Some((t, _)) => t,
+                None => continue,
+            };
+            for span in &spans {
+                for generator in ["dense", "readable"] {
+                    let written = if generator == "dense" {
+                        write_with(DenseLuaGenerator::new(*span), *entry, expression, *form)
+                    } else {
+                        write_with(ReadableLuaGenerator::new(*span), *entry, expression, *form)
+                    };
+                    let (text, flag, nl) = match written {
+                        Some((t, prefix)) => {
+                            let chunk = Some(format!("{}{}", prefix, t));
+                            let reference_chunk = format!("{}{}", prefix, reference);
+                            let flag = match (
+                                catch_unwind(AssertUnwindSafe(|| Parser::default().parse(chunk.as_ref().unwrap()))),
+                                Parser::default().parse(&reference_chunk),
+                            ) {
+                                (Ok(Ok(a)), Ok(b)) => if normalize(&a) == normalize(&b) { "ok" } else { "diff" },
+                                (Ok(Err(_)), _) => "err",
+                                (Err(_), _) => "panic",
+                                (_, Err(_)) => "referr",
+                            };
+                            (hex_or_dash(t.as_bytes()), flag, newline_flag(&chunk))
+                        }
+                        None => ("PANIC".to_owned(), "panic", "x".to_owned()),
+                    };
+                    println!(
+                        "node {} {} {} {} {} {} {} {} nl={} {}",
+                        idn, generator, entry_name, span, encode_literals(&expected), text,
+                        hex_or_dash(reference.as_bytes()), flag, nl, name
+                    );
+                    idn += 1;
+                }
+            }
+        }
+    }
+}
+
+// ---- type trees ------------------------------------------------------------------------------------
+
+/// Type trees WITHOUT any ParentheseType, as prefix code (comma separated):
+/// `A` `B` `C` names, `N` nil, `L` 'lit', `Y` typeof(z), `O,x` optional, `U<n>,x..` union, `I<n>,x..` intersection,
+/// `F<n>,a..,r` function type with n arguments and return r where r is a type, `V,x` (variadic pack ...x) or
+/// `K<n>,x..` (type pack), `R,x` array {x}, `T,x` table {p: x}
+#[derive(Clone, Debug)]
+enum Ty {
+    Name(&'static str),
+    Nil,
+    Lit,
+    TypeOf,
+    Optional(Box<Ty>),
+    Union(Vec<Ty>),
+    Inter(Vec<Ty>),
+    Fun(Vec<Ty>, Box<Ret>),
+    Array(Box<Ty>),
+    Table(Box<Ty>),
+}
+
+#[derive(Clone, Debug)]
+enum Ret {
+    Type(Ty),
+    Variadic(Ty),
+    Pack(Vec<Ty>),
+}
+
+impl Ty {
+    fn code(&self, out: &mut Vec<String>) {
+        match self {
+            Ty::Name(n) => out.push((*n).to_owned()),
+            Ty::Nil => out.push("N".into()),
+            Ty::Lit => out.push("L".into()),
+            Ty::TypeOf => out.push("Y".into()),
+            Ty::Optional(x) => {
+                out.push("O".into());
+                x.code(out);
+            }
+            Ty::Union(l) => {
+                out.push(format!("U{}", l.len()));
+                l.iter().for_each(|x| x.code(out));
+            }
+            Ty::Inter(l) => {
+                out.push(format!("I{}", l.len()));
+                l.iter().for_each(|x| x.code(out));
+            }
+            Ty::Fun(args, ret) => {
+                out.push(format!("F{}", args.len()));
+                args.iter().for_each(|x| x.code(out));
+                match ret.as_ref() {
+                    Ret::Type(t) => t.code(out),
+                    Ret::Variadic(t) => {
+                        out.push("V".into());
+                        t.code(out);
+                    }
+                    Ret::Pack(l) => {
+                        out.push(format!("K{}", l.len()));
+                        l.iter().for_each(|x| x.code(out));
+                    }
+                }
+            }
+            Ty::Array(x) => {
+                out.push("R".into());
+                x.code(out);
+            }
+            Ty::Table(x) => {
+                out.push("T".into());
+                x.code(out);
+            }
+        }
+    }
+
+    fn build(&self) -> Type {
+        match self {
+            Ty::Name(n) => TypeName::new(*n).into(),
+            Ty::Nil => Type::nil(),
+            Ty::Lit => Type::from(StringType::from_value("lit")),
+            Ty::TypeOf => Type::from(ExpressionType::new(Expression::identifier("z"))),
+            Ty::Optional(x) => Type::from(OptionalType::new(x.build())),
+            Ty::Union(l) => Type::from(UnionType::from(l.iter().map(Ty::build).collect::<Vec<_>>())),
+            Ty::Inter(l) => Type::from(IntersectionType::from(l.iter().map(Ty::build).collect::<Vec<_>>())),
+            Ty::Fun(args, ret) => {
+                let return_type: FunctionReturnType = match ret.as_ref() {
+                    Ret::Type(t) => t.build().into(),
+                    Ret::Variadic(t) => VariadicTypePack::new(t.build()).into(),
+                    Ret::Pack(l) => {
+                        let mut pack = TypePack::default();
+                        for x in l {
+                            pack = pack.with_type(x.build());
+                        }
+                        pack.into()
+                    }
+                };
+                let mut function = FunctionType::new(return_type);
+                for a in args {
+                    function = function.with_argument(a.build());
+                }
+                function.into()
+            }
+            Ty::Array(x) => Type::from(ArrayType::new(x.build())),
+            Ty::Table(x) => TableType::default().with_property(TablePropertyType::new("p", x.build())).into(),
+        }
+    }
+
+    /// kind with the variants of function types told apart
+    fn kind_detail(&self) -> String {
+        match self {
+            Ty::Fun(args, ret) => format!(
+                "function{}{}",
+                args.len(),
+                match ret.as_ref() { Ret::Type(_) => "t", Ret::Variadic(_) => "v", Ret::Pack(_) => "k" }
+            ),
+            other => other.kind().to_owned(),
+        }
+    }
+
+    fn kind(&self) -> &'static str {
+        match self {
+            Ty::Name(_) => "name",
+            Ty::Nil => "nil",
+            Ty::Lit => "string",
+            Ty::TypeOf => "typeof",
+            Ty::Optional(_) => "optional",
+            Ty::Union(_) => "union",
+            Ty::Inter(_) => "intersection",
+            Ty::Fun(..) => "function",
+            Ty::Array(_) => "array",
+            Ty::Table(_) => "table",
+        }
+    }
+}
+
+fn a() -> Ty { Ty::Name("A") }
+fn b() -> Ty { Ty::Name("B") }
+fn c() -> Ty { Ty::Name("C") }
+
+/// one representative of every kind of type
+fn type_kinds() -> Vec<Ty> {
+    vec![
+        a(),
+        Ty::Nil,
+        Ty::Lit,
+        Ty::TypeOf,
+        Ty::Optional(Box::new(b())),
+        Ty::Union(vec![b(), c()]),
+        Ty::Inter(vec![b(), c()]),
+        Ty::Fun(vec![], Box::new(Ret::Type(b()))),
+        Ty::Fun(vec![b()], Box::new(Ret::Type(c()))),
+        Ty::Fun(vec![], Box::new(Ret::Variadic(b()))),
+        Ty::Fun(vec![], Box::new(Ret::Pack(vec![b(), c()]))),
+        Ty::Array(Box::new(b())),
+        Ty::Table(Box::new(b())),
+    ]
+}
+
+/// every constructor with every kind of type at every member position
+fn type_trees(seed: u64, random: u64) -> Vec<Ty> {
+    let kinds = type_kinds();
+    let mut out: Vec<Ty> = kinds.clone();
+    for x in &kinds {
+        out.push(Ty::Optional(Box::new(x.clone())));
+        out.push(Ty::Array(Box::new(x.clone())));
+        out.push(Ty::Table(Box::new(x.clone())));
+        out.push(Ty::Fun(vec![], Box::new(Ret::Type(x.clone()))));
+        out.push(Ty::Fun(vec![x.clone()], Box::new(Ret::Type(a()))));
+        out.push(Ty::Fun(vec![a(), x.clone()], Box::new(Ret::Type(a()))));
+        out.push(Ty::Fun(vec![], Box::new(Ret::Variadic(x.clone()))));
+        out.push(Ty::Fun(vec![], Box::new(Ret::Pack(vec![x.clone(), a()]))));
+        out.push(Ty::Fun(vec![], Box::new(Ret::Pack(vec![a(), x.clone()]))));
+        for container in 0..2 {
+            let mk = |l: Vec<Ty>| if container == 0 { Ty::Union(l) } else { Ty::Inter(l) };
+            out.push(mk(vec![x.clone(), a()]));
+            out.push(mk(vec![a(), x.clone()]));
+            out.push(mk(vec![x.clone(), a(), c()]));
+            out.push(mk(vec![a(), x.clone(), c()]));
+            out.push(mk(vec![a(), c(), x.clone()]));
+            for y in &kinds {
+                out.push(mk(vec![x.clone(), y.clone()]));
+            }
+        }
+    }
+    let mut rng = Rng::new(seed);
+    fn random_type(rng: &mut Rng, depth: usize) -> Ty {
+        if depth == 0 {
+            return [a(), b(), c(), Ty::Nil, Ty::Lit][rng.below(5)].clone();
+        }
+        let d = depth - 1;
+        match rng.below(9) {
+            0 => Ty::Optional(Box::new(random_type(rng, d))),
+            1 | 2 => Ty::Union((0..2 + rng.below(2)).map(|_| random_type(rng, d)).collect()),
+            3 | 4 => Ty::Inter((0..2 + rng.below(2)).map(|_| random_type(rng, d)).collect()),
+            5 => {
+                let args = (0..rng.below(3)).map(|_| random_type(rng, d)).collect();
+                let ret = match rng.below(3) {
+                    0 => Ret::Variadic(random_type(rng, d)),
+                    1 => Ret::Pack((0..rng.below(3)).map(|_| random_type(rng, d)).collect()),
+                    _ => Ret::Type(random_type(rng, d)),
+                };
+                Ty::Fun(args, Box::new(ret))
+            }
+            6 => Ty::Array(Box::new(random_type(rng, d))),
+            7 => Ty::Table(Box::new(random_type(rng, d))),
+            _ => random_type(rng, 0),
+        }
+    }
+    for k in 0..random {
+        out.push(random_type(&mut rng, 2 + (k % 2) as usize));
+    }
+    out
+}
+
+fn type_contexts(t: &Type) -> Vec<(&'static str, Block)> {
+    let body = Block::default();
+    vec![
+        ("type_declaration", Block::new(vec![TypeDeclarationStatement::new("X", t.clone()).into()], None)),
+        (
+            "typed_local",
+            Block::new(
+                vec![VariableAssignment::new(vec![TypedIdentifier::new("v").with_type(t.clone())], vec![Expression::nil()]).into()],
+                None,
+            ),
+        ),
+        (
+            "parameter",
+            Block::new(
+                vec![FunctionAssignment::from_name("f", body.clone()).with_parameter(TypedIdentifier::new("p").with_type(t.clone())).into()],
+                None,
+            ),
+        ),
+        (
+            "return_type",
+            Block::new(vec![FunctionAssignment::from_name("f", body.clone()).with_return_type(t.clone()).into()], None),
+        ),
+        (
+            "cast",
+            Block::default().with_last_statement(ReturnStatement::one(TypeCastExpression::new(Expression::identifier("v"), t.clone()))),
+        ),
+    ]
+}
+
+/// `ty <id> <context> <span> <tree code> <dense hex> <readable hex> <token-based hex> <flags d r t>`
+fn types(seed: u64, random: u64) {
+    let mut id = 0usize;
+    for tree in type_trees(seed, random) {
+        let mut code = Vec::new();
+        tree.code(&mut code);
+        let built = tree.build();
+        for (context, block) in type_contexts(&built) {
+            for span in [80usize, 7] {
+                let d = dense(&block, span);
+                let r = readable(&block, span);
+                let t = token_based(&block);
+                let h = |x: &Option<String>| x.as_ref().map(|s| hex_or_dash(s.as_bytes())).unwrap_or_else(|| "PANIC".into());
+                println!(
+                    "ty {} {} {} {} {} {} {} {} {} {}",
+                    id, context, span, code.join(","), h(&d), h(&r), h(&t),
+                    reparse(&block, &d), reparse(&block, &r), reparse(&block, &t)
+                );
+                id += 1;
+            }
+        }
+    }
+}
+
+/// the EFFECTIVE parenthesisation table of each generator, read back from its output:
+/// `tparen <generator> <container> <position> <child kind> <0|1>`
+fn typetable() {
+    let kinds = type_kinds();
+    let text_of = |generator: usize, t: &Ty| -> Option<String> {
+        let block = Block::new(vec![TypeDeclarationStatement::new("X", t.build()).into()], None);
+        let text = match generator {
+            0 => dense(&block, 1_000_000_000),
+            1 => readable(&block, 1_000_000_000),
+            _ => token_based(&block),
+        }?;
+        // drop everything up to "=" and all white space
+        let after = text.splitn(2, '=').nth(1)?.to_owned();
+        Some(after.chars().filter(|c| !c.is_whitespace()).collect())
+    };
+    for (g, generator) in ["dense", "readable", "token_based"].iter().enumerate() {
+        for child in &kinds {
+            let child_text = match text_of(g, child) {
+                Some(t) => t,
+                None => continue,
+            };
+            let wrapped = format!("({})", child_text);
+            let row = |container: &str, position: &str, t: Ty| {
+                let flag = match text_of(g, &t) {
+                    Some(text) => if text.contains(&wrapped) { "1" } else { "0" },
+                    None => "x",
+                };
+                println!("tparen {} {} {} {} {}", generator, container, position, child.kind_detail(), flag);
+            };
+            row("optional", "inner", Ty::Optional(Box::new(child.clone())));
+            for (name, container) in [("union", 0), ("intersection", 1)] {
+                let mk = |l: Vec<Ty>| if container == 0 { Ty::Union(l) } else { Ty::Inter(l) };
+                row(name, "first", mk(vec![child.clone(), Ty::Name("Q"), Ty::Name("S")]));
+                row(name, "middle", mk(vec![Ty::Name("Q"), child.clone(), Ty::Name("S")]));
+                row(name, "last", mk(vec![Ty::Name("Q"), Ty::Name("S"), child.clone()]));
+            }
+        }
+    }
+    println!("end");
+}
+
 // ---- literal leaves -------------------------------------------------------------------------
 
 fn number_text_value(text: &str) -> Option<f64> {
@@ -1311,6 +1827,32 @@ fn leaves() {
         numbers.push(HexNumber::new(v, true).into());
         numbers.push(BinaryNumber::new(v, false).into());
     }
+    // decimal numbers WITH a recorded exponent: exponents -25..=25, mantissas with 2 to 5 significant digits
+    let mantissas = [
+        "1.18", "1.32", "1.108", "1.1123", "8.1005", "2.1003", "1.193", "9.9", "3.07", "7.1234", "1.0001", "4.56", "6.2", "2.5",
+    ];
+    for (k, exponent) in (-25i64..=25).enumerate() {
+        for j in 0..6 {
+            let mantissa = mantissas[(k * 5 + j * 3) % mantissas.len()];
+            if let Ok(value) = format!("{}e{}", mantissa, exponent).parse::<f64>() {
+                numbers.push(DecimalNumber::new(value).with_exponent(exponent, (k + j) % 2 == 0).into());
+            }
+        }
+    }
+    for (mantissa, exponent) in [("1.18", 1), ("1.32", 1), ("1.108", 2), ("1.1123", 3), ("8.1005", 20), ("2.1003", 21), ("1.193", 22)] {
+        let value: f64 = format!("{}e{}", mantissa, exponent).parse().unwrap();
+        numbers.push(DecimalNumber::new(value).with_exponent(exponent, false).into());
+    }
+    // source literals: parsed by darklua, then written
+    for source in [
+        "1.18e1", "1E+3", ".5e-3", "1_000e1_0", "1e22", "0.1e-5", "12.5E-10", "1.0e0", "5e-324", "1e308", "1.32E1", "8.1005e20",
+        "2.1003e+21", "1.193E22", "0x1F", "0b1_01", "1_0.2_5", "3.", "0e0", "123456789e-3",
+    ] {
+        if let Ok(number) = std::str::FromStr::from_str(source) {
+            let number: NumberExpression = number;
+            numbers.push(number);
+        }
+    }
     for number in numbers {
         let expected = number.compute_value();
         let check = move |d: &Option<String>, r: &Option<String>| {
@@ -1335,6 +1877,9 @@ fn main() {
         "calls" => calls(),
         "casts" => casts(),
         "leaves" => leaves(),
+        "nodes" => nodes(),
+        "types" => types(arg_u64(args, "--seed", 1), arg_u64(args, "--random", 150)),
+        "typetable" => typetable(),
         "sources" => sources(),
         "strings" => strings(arg_u64(args, "--seed", 1), arg_u64(args, "--random", 40)),
         "stmts" => stmts(),
@@ -1347,6 +1892,8 @@ fn main() {
             let limit = arg_u64(args, "--limit", 1000) as usize;
             if args.iter().any(|a| a == "--all-spans") {
                 pairs(limit, &SPANS)
+            } else if args.iter().any(|a| a == "--two-spans") {
+                pairs(limit, &[7, 1_000_000_000])
             } else {
                 pairs(limit, &[0, 7, 1_000_000_000])
             }
